@@ -690,6 +690,9 @@ def _closure_value_in(F, parent, callee_suffix, argidx):
                 v = e["args"][argidx]
                 if v[0] == "Cl":
                     return v
+                if v[0] == "K" and isinstance(v[1], str) and v[1].startswith("fn:") and v[1][3:] in F.bodies:
+                    # a named function passed as the predicate: no captures
+                    return ("Cl", v[1][3:], ())
     return None
 
 
@@ -727,6 +730,42 @@ def _check_status_membership(F, R, cl, want, what, subject_of):
     got = {caps.get(u) for u in used}
     if got != set(want):
         R.violation("R3", cb["owner_fn"], "%s-statuses" % what, "the %s accepts statuses %s; documented: %s" % (what, sorted(str(g) for g in got), sorted(want)), where(cb))
+    else:
+        R.ok("R3", "%s: true exactly for status in %s (%d rows)" % (what, sorted(want), len(rows)), where(cb))
+
+
+def _check_status_membership_inline(F, R, body, want, what):
+    """the same truth-table check for a predicate that names the statuses itself (`v == Status::X.to_taskmap()`), written
+    as a function - possibly `opt.map(|v| ..).unwrap_or(false)`, which is false for None and the closure's value otherwise"""
+    cb = body
+    try:
+        ps = [q for q in SymExec(cb, cfg_of(cb)).run() if q.end[0] == "return"]
+    except Exception:
+        ps = []
+    if len(ps) == 1 and ps[0].ret and ps[0].ret[0] == "C" and str(ps[0].ret[2]).endswith("Option::<T>::unwrap_or"):
+        a0, a1 = ps[0].ret[3][0], ps[0].ret[3][1]
+        if a1 == ("K", "false") and a0[0] == "C" and str(a0[2]).endswith("Option::<T>::map") and a0[3][1][0] == "Cl" and a0[3][1][1] in F.bodies:
+            cb = F.bodies[a0[3][1][1]]
+    rows = _bool_rows(cb)
+    if rows is None:
+        R.violation("R3", cb["owner_fn"], "%s-table" % what, "cannot extract the truth table of the %s" % what, where(cb))
+        return
+    used = set()
+    for conds, res in rows:
+        T = set()
+        for a, o in conds.items():
+            if a[0] == "call" and a[1].endswith("PartialEq::eq") and o is True:
+                for x in a[2]:
+                    if x[0] == "C" and str(x[2]).endswith("Status::to_taskmap"):
+                        for y in x[3]:
+                            if y[0] == "A" and str(y[1]).endswith("Status"):
+                                T.add(y[2])
+        used |= T
+        if bool(T) != res:
+            R.violation("R3", cb["owner_fn"], "%s-polarity" % what, "the %s returns %s on the row {%s}" % (what, res, ", ".join("%s=%s" % (show_atom(a), o) for a, o in conds.items())), where(cb))
+            return
+    if used != set(want):
+        R.violation("R3", cb["owner_fn"], "%s-statuses" % what, "the %s accepts statuses %s; documented: %s" % (what, sorted(used), sorted(want)), where(cb))
     else:
         R.ok("R3", "%s: true exactly for status in %s (%d rows)" % (what, sorted(want), len(rows)), where(cb))
 
@@ -793,6 +832,13 @@ def rule_R3(F, R):
             for i, u in enumerate(ups):
                 if i < len(cl[2]) and cl[2][i][0] == "Cl":
                     inner = (u, cl[2][i])
+            inner_fn = None
+            if inner is None and rows is not None:
+                # the status test may be a named function instead of a captured closure
+                names_ = {a[2] for conds, _r in rows for a in conds if a[0] == "call#" and a[2] in F.bodies and (_has(a[3], lambda z: z[0] == "F" and z[3] in ("old_value", "value")))}
+                if len(names_) == 1:
+                    inner_fn = sorted(names_)[0]
+                    inner = ("fn", ("Cl", inner_fn, ()))
             if rows is None or inner is None:
                 R.violation("R3", cb["owner_fn"], "commit-trigger-table", "cannot extract the truth table of the add-to-working-set trigger", where(cb))
             else:
@@ -812,7 +858,10 @@ def rule_R3(F, R):
                     R.violation("R3", cb["owner_fn"], "commit-trigger-table", bad or "the trigger is never true for a transition into pending/recurring", where(cb))
                 else:
                     R.ok("R3", "commit trigger: Update ∧ property==status ∧ !p_or_r(old) ∧ p_or_r(new) (%d rows)" % len(rows), where(cb))
-                _check_status_membership(F, R, inner[1], want, "pending-or-recurring test", lambda v: True)
+                if inner_fn is None:
+                    _check_status_membership(F, R, inner[1], want, "pending-or-recurring test", lambda v: True)
+                else:
+                    _check_status_membership_inline(F, R, F.bodies[inner_fn], want, "pending-or-recurring test")
     tb = F.real_body("taskdb::TaskDb::<S>::commit_operations")
     if tb is None:
         R.missing("R3", "TaskDb::commit_operations")
